@@ -329,3 +329,20 @@ func init() {
 		}
 	})
 }
+
+func init() {
+	extraStubs = append(extraStubs, func(e *Engine) {
+		e.Stubs["time.Unix"] = func(in *Interp, fn *ssa.Function, args []Value) (Value, bool) {
+			z := in.zero(fn.Signature.Results().At(0).Type()).(Struct)
+			z[1] = args[0] // ext carries the unix seconds
+			return z, true
+		}
+		e.Stubs["(time.Time).UTC"] = func(in *Interp, fn *ssa.Function, args []Value) (Value, bool) {
+			return args[0], true
+		}
+		e.Stubs["(time.Time).Format"] = func(in *Interp, fn *ssa.Function, args []Value) (Value, bool) {
+			sec := args[0].(Struct)[1].(*Term)
+			return in.noteUF(in.tb.UF("time.rfc3339", SortStr, sec)), true
+		}
+	})
+}
